@@ -385,7 +385,28 @@ func C16(x *Ctx) {
 			if va.AvgBandwidth != nil {
 				avg = *va.AvgBandwidth
 			}
-			x.fail("bandwidth", "bandwidth-order", "%s: BANDWIDTH=%d AVERAGE-BANDWIDTH=%d", where, va.Bandwidth, avg)
+			// a window in which every listed segment has a zero EXTINF has no bit rate at all: kept apart
+			// (known finding, see KNOWN_FINDINGS.txt) from any other way of getting the numbers wrong
+			zeroWindow := false
+			if so := r.Streams[h.StreamIDs[0]]; va.Bandwidth == 0 && avg == 0 && so != nil && so.PL != nil && so.PL.Media != nil {
+				zeroWindow = true
+				n := 0
+				for _, sg := range so.PL.Media.Segments {
+					if sg.Gap {
+						continue
+					}
+					n++
+					if sg.DurNS != 0 {
+						zeroWindow = false
+					}
+				}
+				zeroWindow = zeroWindow && n > 0
+			}
+			if zeroWindow {
+				x.fail("bandwidth", "bandwidth-zero/only-zero-duration-segments-listed", "%s: BANDWIDTH=0 AVERAGE-BANDWIDTH=0 while every listed segment has EXTINF 0 (two random-access units with the same DTS, the second one with new parameters)", where)
+			} else {
+				x.fail("bandwidth", "bandwidth-order", "%s: BANDWIDTH=%d AVERAGE-BANDWIDTH=%d", where, va.Bandwidth, avg)
+			}
 		} else if len(h.StreamIDs) == 1 {
 			so := r.Streams[h.StreamIDs[0]]
 			if so != nil && so.PL != nil && so.PL.Media != nil {
